@@ -54,12 +54,26 @@ def _big_stack():
             pass
 
 
-def sh(cmd, cwd=None, env=None, timeout=None, input=None, check=False, big_stack=False):
+def _limits(big_stack, mem_gb):
+    def f():
+        import resource
+        if big_stack:
+            _big_stack()
+        if mem_gb:
+            lim = int(mem_gb * (1 << 30))
+            try:
+                resource.setrlimit(resource.RLIMIT_AS, (lim, lim))
+            except (ValueError, OSError):
+                pass
+    return f if (big_stack or mem_gb) else None
+
+
+def sh(cmd, cwd=None, env=None, timeout=None, input=None, check=False, big_stack=False, mem_gb=None):
     """Run a command, return (rc, stdout, stderr) as text."""
     try:
         p = subprocess.run(cmd, cwd=cwd, env=env, timeout=timeout, input=input,
                            capture_output=True, text=True, shell=isinstance(cmd, str),
-                           preexec_fn=_big_stack if big_stack else None)
+                           preexec_fn=_limits(big_stack, mem_gb))
     except subprocess.TimeoutExpired as e:
         out = e.stdout.decode() if isinstance(e.stdout, bytes) else (e.stdout or "")
         err = e.stderr.decode() if isinstance(e.stderr, bytes) else (e.stderr or "")
@@ -300,11 +314,11 @@ def build_go_harness(name, scratch, tags=None, extra_files=None):
     return dst / name, ""
 
 
-def run_lines(exe, args, lines, timeout=1800, env=None, cwd=None):
+def run_lines(exe, args, lines, timeout=1800, env=None, cwd=None, mem_gb=None):
     """Feed one op per line, get one result per line."""
     data = "\n".join(lines) + "\n"
     cmd = [str(exe)] + list(args)
-    rc, out, err = sh(cmd, input=data, timeout=timeout, env=env, cwd=cwd, big_stack=True)
+    rc, out, err = sh(cmd, input=data, timeout=timeout, env=env, cwd=cwd, big_stack=True, mem_gb=mem_gb)
     res = out.split("\n")
     if res and res[-1] == "":
         res.pop()
@@ -548,7 +562,7 @@ def standard_run(ctx, *, props, family, consts, go_runner, gen_ops, oracle, corr
     return thm, mism, bad
 
 
-def run_lines_resilient(exe, args, lines, timeout=900, env=None, max_restarts=20):
+def run_lines_resilient(exe, args, lines, timeout=900, env=None, max_restarts=20, mem_gb=None):
     """Like run_lines, but when the process dies (e.g. fatal stack overflow, which recover()
     cannot catch) the line it died on gets the result 'crash <last stderr line>' and the
     remaining lines are run in a fresh process."""
@@ -556,13 +570,15 @@ def run_lines_resilient(exe, args, lines, timeout=900, env=None, max_restarts=20
     pos = 0
     crashes = 0
     while pos < len(lines):
-        rc, res, err = run_lines(exe, args, lines[pos:], timeout=timeout, env=env)
+        rc, res, err = run_lines(exe, args, lines[pos:], timeout=timeout, env=env, mem_gb=mem_gb)
         out += res[:len(lines) - pos]
         pos = len(out)
         if pos >= len(lines):
             break
         # died on lines[pos]
         reason = "timeout" if rc == 124 else next((l for l in err.splitlines() if l.startswith(("fatal error", "runtime:", "panic"))), f"exit {rc}")
+        if "out of memory" in err[:4000] or "cannot allocate" in err[:4000]:
+            reason = "oom " + reason
         out.append("crash " + reason.replace("\n", " ")[:200])
         pos = len(out)
         crashes += 1
